@@ -31,8 +31,8 @@ plan('C17',
          Job('c17_files', 'big', 'asan', quick=8, thorough=100, shards=(4, 6), params=dict(maxmb=1), tparams=dict(maxmb=16)),
          Job('c17_files', 'big', 'plain', quick=16, thorough=200, shards=(2, 6), params=dict(maxmb=1), tparams=dict(maxmb=16)),
          # a write that fails at a chosen byte during copy/move (RLIMIT_FSIZE), and moves to another file system (/dev/shm)
-         Job('c17_files', 'fault', 'asan', quick=2000, thorough=40000, shards=(3, 12)),
-         Job('c17_files', 'fault', 'plain', quick=2000, thorough=40000, shards=(2, 8)),
+         Job('c17_files', 'fault', 'asan', quick=2000, thorough=20000, shards=(3, 12)),
+         Job('c17_files', 'fault', 'plain', quick=2000, thorough=20000, shards=(2, 8)),
          # one long-lived File / TextFile object: metadata queries, opens, writes, closes and reads interleaved
          Job('c17_files', 'sameobj', 'asan', quick=3000, thorough=80000, shards=(3, 12)),
          Job('c17_files', 'sameobj', 'plain', quick=3000, thorough=80000, shards=(2, 8)),
